@@ -51,7 +51,9 @@ PayOps ==
   {[op |-> "add_data", len |-> p[1], fb |-> p[2]] : p \in Payloads} \cup
   {[op |-> "add_mixed_data", len |-> p[1], fb |-> p[2], cipher |-> c] : p \in Payloads, c \in Ciphers \cup {"-"}} \cup
   {[op |-> "add_encrypted_data", len |-> p[1], fb |-> p[2], cipher |-> c, idx |-> i] : p \in Payloads, c \in Ciphers, i \in 0..1} \cup
-  {[op |-> "add_chunk", len |-> p[1], fb |-> p[2], mode |-> m, kind |-> k] : p \in Payloads, m \in DataModes, k \in {"new", "parsed"}}
+  {[op |-> "add_chunk", len |-> p[1], fb |-> p[2], mode |-> m, kind |-> k] : p \in Payloads, m \in DataModes, k \in {"new", "parsed"}} \cup
+  \* BlteFile::compress(data, chunk_size, mode): the one-call encoder (a whole program by itself)
+  {[op |-> "compress", len |-> p[1], fb |-> p[2], mode |-> m, n |-> c] : p \in Payloads, m \in DataModes \cup {"E", "F"}, c \in {CSmall, DefaultCS}}
 
 Rank(e) == CASE e.op = "-" -> 0
              [] e.op = "with_compression" -> 1
@@ -61,6 +63,7 @@ Rank(e) == CASE e.op = "-" -> 0
 NAdds == Cardinality({i \in 1..Len(hist) : IsAdd(hist[i])})
 HasOp(o) == \E i \in 1..Len(hist) : hist[i].op = o
 PayAllowed(e) ==
+  /\ e.op = "compress" => hist = <<>>
   /\ Cfg(e) => Rank(e) > Rank(LastOp)
   /\ IsAdd(e) /\ NAdds = 0 =>
        /\ e.op # "add_data" => ~HasOp("with_encryption")                 \* builder-level encryption only matters to add_data
@@ -89,14 +92,14 @@ OffsetsInv == \A p \in 1..NChunks(b) :
 \* witnesses of the listed deviations: with the listed set switched on TLC must refute the property at a
 \* state that shows the deviation (regenerates the finding's counterexample; shortest first: BFS)
 Wit(cond) == (phase = "built" /\ cond) => (PrintT(<<"WITNESS", ToJson([inline |-> TRUE, ops |-> hist])>>) /\ FALSE)
-BrokenBy(f) == ~Identity(b) /\ \E p \in Broken(b) : WhyBroken(b, p) = f /\ b.chunks[p].len > 0 \/ f = "F01d"
-TableBy(field, v) == ~TableTruthful(b) /\ \E p \in 1..NChunks(b) : b.chunks[p][field] = v
+BrokenBy(f) == ~Identity(b) /\ \E p \in Broken(b) : WhyBroken(b, p) = f /\ (b.chunks[p].len > 0 \/ f = "F01d")
+TableBy(field, v) == HasTable(b) /\ \E p \in 1..NChunks(b) : b.chunks[p][field] = v /\ b.chunks[p].len > 0
 NoWitF01a == Wit(BrokenBy("F01a"))
 NoWitF01b == Wit(BrokenBy("F01b"))
 NoWitF01d == Wit(BrokenBy("F01d"))
 NoWitF01c == Wit(TableBy("dsz", "payload"))
 NoWitF01e == Wit(TableBy("dsz", "comp"))
-NoWitF01f == Wit(TableBy("dck", "comp"))
+NoWitF01f == Wit(b.table = "ext" /\ TableBy("dck", "comp"))
 
 Emit == phase # "open" => PrintT(<<"PROGRAM", ToJson([inline |-> TRUE, ops |-> hist])>>)
 =============================================================================
